@@ -15,7 +15,7 @@ import (
 	"go/token"
 	"sort"
 
-	"golang.org/x/tools/go/ssa"
+	"trzszlint/xssa"
 )
 
 type cellState struct{ flag, err bool } // flag: may confirm; err: error set
